@@ -125,6 +125,39 @@ CHECKS["C12"] = {
     "note": "No hook needed (the implementation, callers, result capability and Shutdowner are harness code). Interleavings depend on timing jitter (seeded sleeps), not on a scheduler.",
 }
 
+CHECKS["C06"] = {
+    "engine": "tlc",
+    "level": "model_checking",
+    "design_ref": "DESIGN.md section 0.2 / 4 C06, Appendix D",
+    "technique": "TLC-generated peer/application scripts (RpcEnv) replayed against a real Conn over an in-memory transport played by the harness; the complete wire + application event log validated by TLC against the trace specification RpcTrace",
+    "text": "RpcTrace derives everything from the wire history: each received Bootstrap/Call opens an answer that gets exactly one Return with its own id and the result (or exception) the method body produced; method bodies of one capability start in wire order of the calls addressed to it (direct, pipelined before/after the answer returned); a question id chosen by the connection is not reused before its Finish was sent (cancelled questions stay in use until their Return); each local call resolves once with the peer's Return. 1250 (quick) scripts sampled from ~170k maximal behaviours of RpcEnv, one fresh Conn each.",
+    "note": "The scripted peer is kept well formed (actions depending on skipped actions are skipped). Windows inside a handler (e.g. between popping a question and sending its Finish) are not schedulable: no yield points in package rpc.",
+}
+CHECKS["C07"] = {
+    "engine": "tlc",
+    "level": "model_checking",
+    "design_ref": "DESIGN.md section 0.2 / 4 C07, Appendix D",
+    "technique": "same scripts, driver and trace specification as C06; the reference-counting rules of RpcTrace decide: wire counts derived from descriptors sent, Release and Finish(releaseResultCaps); holders of each instrumented capability; Shutdown only when nothing holds it and by the next quiescent point; Release of imports with the exact count once no local reference is live; everything shut down exactly once after Close",
+    "text": "Local capabilities are server.Server instances with a Shutdowner that logs; the application returns fresh capabilities in results (the connection then owns the only reference), so the instant at which each must be shut down is determined by the wire history: Finish of the answer that returned it, Release messages, releaseResultCaps (before or after the Return), Close. Imports arrive as call parameters and as the local Bootstrap result; their Release must carry the number of descriptors received.",
+    "note": "Exports created for capabilities the connection sends in call parameters (releaseParamCaps) are not exercised yet: local calls carry no capabilities.",
+}
+CHECKS["C08"] = {
+    "engine": "tlc",
+    "level": "model_checking",
+    "design_ref": "DESIGN.md section 0.2 / 4 C08",
+    "technique": "TLC-enumerated scripts (8 well-formed prefixes x 35 hostile message kinds x probe x Close once/twice) replayed against a real Conn; process survival + RpcEndState trace specification (allowed reaction, no send after close, local calls resolve, Close returns, Done closes, locks free, capabilities released)",
+    "text": "Hostile kinds cover the id spaces and unions of rpc.capnp: unknown / reused ids in Call, Bootstrap, Finish (twice), Release (unknown, too many), Return, Disembargo; capability descriptors naming no export or using receiverAnswer / thirdPartyHosted / unknown members; unknown members of Message, MessageTarget, Return, Disembargo.context, PromisedAnswer.Op; sendResultsTo.yourself; null params / target; Resolve / Provide / Accept / Join; Abort; empty message. A panic in a library goroutine kills the driver and is attributed to the running script.",
+    "note": "Byte-level corruption of a stream transport is not part of this check (C01 covers hostile bytes at the message level).",
+}
+CHECKS["C09"] = {
+    "engine": "tlc",
+    "level": "fault_enumeration",
+    "design_ref": "DESIGN.md section 0.2 / 4 C09",
+    "technique": "TLC-enumerated fault plans (4 base scenarios x {NewMessage, send, receive} failure x operation index 1..7 x Close once/twice; Close injected at every step) replayed against a real Conn with a fault-injecting transport; RpcEndState trace specification + verif view of the connection mutex / sender lock",
+    "text": "For every plan: every local call resolves (not by the harness' own timeout), Close returns also the second time, Done closes, nothing is sent after the transport was closed, every capability is shut down, and afterwards mu.TryLock succeeds and the sender lock is free. A run that does not finish within 8 s is reported with a goroutine dump.",
+    "note": "Message-level transport only; torn writes of the stream transport (partial write latch) are not exercised by this check.",
+}
+
 NOT_APPLICABLE = {
     "C%02d" % i: "check not built yet in this session (planned, see DESIGN.md section 9); not claimed until its TLA+ spec and conformance harness exist" for i in range(1, 21)
 }
